@@ -286,31 +286,37 @@ theorem sequences_resume (h : Params) (bs : Bytes) (seqs : List Seq)
   obtain ⟨rows, last, a, b, c, d, _⟩ := h3 s hs'
   exact ⟨rows, last, a, b, c, d⟩
 
-/-- **Reported start** — partial: `start` is the address of the first row of the sequence whenever
-the sequence has a row before its end row.
-
-Full statement (FALSE for the code as it is, finding C04-2): without the hypothesis on the length;
-a sequence that consists of its end row only is reported with `start = 0`
-(`sequences_start_counterexample`). -/
-theorem sequences_start_partial (h : Params) (bs : Bytes) (seqs : List Seq)
-    (hs : sequences h bs = .ok seqs) (s : Seq) (hmem : s ∈ seqs) (hlen : 2 ≤ (resume h s).length) :
-    ∃ first : Row, (resume h s).head? = some (Ev.row first) ∧ s.start = first.address := by
+/-- **Reported bounds, every input.** For every sequence `sequences()` reports, `start` is the
+address of the first row `resume_from` yields for it — the end row itself when the sequence has
+no other row (holds since the `fix:` for `LineSequence::start`, former finding C04-2; before it
+such a sequence was reported with `start = 0`) — and `end` is the address of its last row, the
+`end_sequence` row. -/
+theorem sequences_start (h : Params) (bs : Bytes) (seqs : List Seq)
+    (hs : sequences h bs = .ok seqs) (s : Seq) (hmem : s ∈ seqs) :
+    ∃ first last : Row, (resume h s).head? = some (Ev.row first) ∧
+      (resume h s).getLast? = some (Ev.row last) ∧ last.endSequence = true ∧
+      s.start = first.address ∧ s.end = last.address := by
   obtain ⟨_, _, _, h3⟩ := sequences_spec h bs seqs hs
-  obtain ⟨rows, last, a, _, _, _, e⟩ := h3 s hmem
+  obtain ⟨rows, last, a, b, _, d, e⟩ := h3 s hmem
   cases rows with
-  | nil => rw [a] at hlen; simp at hlen
-  | cons r rs => exact ⟨r, by rw [a]; simp, e⟩
+  | nil => exact ⟨last, last, by rw [a]; simp, by rw [a]; simp, b, e, d⟩
+  | cons r rs =>
+    refine ⟨r, last, by rw [a]; simp, ?_, b, e, d⟩
+    rw [a, List.getLast?_append]
+    simp
 
-/-- **Finding C04-2, pinned**: `set_address 0x1000; end_sequence` is reported as the sequence
-`[0, 0x1000)` although its only row is at 0x1000. -/
-theorem sequences_start_counterexample :
-    sequences hdr4 [0, 9, 2, 0, 0x10, 0, 0, 0, 0, 0, 0,  0, 1, 1] =
-      .ok [{ start := 0, «end» := 0x1000,
-             instructions := [0, 9, 2, 0, 0x10, 0, 0, 0, 0, 0, 0,  0, 1, 1] }] := by
+/-- regression witness of the repaired finding C04-2: `set_address 0x1000; end_sequence` is the
+empty sequence at 0x1000 -/
+example : sequences hdr4 [0, 9, 2, 0, 0x10, 0, 0, 0, 0, 0, 0,  0, 1, 1] =
+    .ok [{ start := 0x1000, «end» := 0x1000,
+           instructions := [0, 9, 2, 0, 0x10, 0, 0, 0, 0, 0, 0,  0, 1, 1] }] := by
   decide
 
 /-- **Ordered bounds** — partial: `start ≤ end` for every reported sequence inside which no
-`end_sequence` was swallowed (finding C04-1 is the only way to get `start > end`). -/
+`end_sequence` was swallowed.
+
+Full statement (FALSE for the code as it is, finding C04-1, which is the only way to get
+`start > end`; see `monotone_observed_counterexample`): without the hypothesis `hne`. -/
 theorem sequences_ordered_partial (h : Params) (bs : Bytes) (seqs : List Seq)
     (hs : sequences h bs = .ok seqs) (s : Seq) (hmem : s ∈ seqs)
     (hne : NoHiddenEnd (trace h s.instructions)) : s.start ≤ s.end := by
